@@ -51,11 +51,11 @@ func init() {
 	})
 }
 
-var c12Ops = []string{"sm2.keygen", "sm2.sign", "sm2.encrypt", "sm2.kxinit", "sm2.kxrespond", "ecdh.keygen", "sm9.skeygen", "sm9.ekeygen", "sm9.sign", "sm9.wrap", "sm9.encrypt", "sm9.kxinit", "legacy.sign", "legacy.encrypt", "sm9.kxrespond"}
+var c12Ops = []string{"sm2.keygen", "sm2.sign", "sm2.encrypt", "sm2.kxinit", "sm2.kxrespond", "ecdh.keygen", "sm9.skeygen", "sm9.ekeygen", "sm9.sign", "sm9.wrap", "sm9.encrypt", "sm9.kxinit", "legacy.sign", "legacy.encrypt", "sm9.kxrespond", "sm2.signretry", "sm9.wrapretry"}
 
 func genC12(r *sim.Rand, tier string) *sim.Program {
 	p := &sim.Program{Prop: "C12"}
-	op := r.Weighted(6, 8, 6, 4, 4, 6, 2, 2, 2, 2, 2, 2, 2, 2, 1)
+	op := r.Weighted(6, 8, 6, 4, 4, 6, 2, 2, 2, 2, 2, 2, 2, 2, 1, 2, 1)
 	p.SetC("op", op)
 	p.SetC("pre", r.Intn(2))
 	p.SetC("chunk", r.PickInt(0, 0, 1, 7, 16, 31, 32, 33))
@@ -87,6 +87,12 @@ type c12Case struct {
 	usesPre bool
 	// reject, if set, is a further legitimate reason of the algorithm to discard an in-range block and draw the next one
 	reject func(k *big.Int) bool
+	// prepare, if set, is told the first in-range block of the stream before the run and arranges the inputs of the
+	// operation so that the ALGORITHM legitimately discards exactly that block (reject then answers for it)
+	prepare func(first *big.Int)
+	// findRejected, if set, searches a block that the algorithm legitimately discards for the fixed inputs of the case
+	// (nil if none was found within the budget); the executor puts it in front of the stream
+	findRejected func() []byte
 }
 
 func c12Block(kind int, order *big.Int, rnd []byte) []byte {
@@ -176,6 +182,30 @@ func execC12(t *testing.T, p *sim.Program, c *sim.Ctx) {
 	}
 	var expect *big.Int
 	rejected := 0
+	hiAll := new(big.Int).Sub(cs.order, big.NewInt(cs.hiOff))
+	var front []byte
+	if cs.findRejected != nil {
+		if front = cs.findRejected(); front != nil {
+			c.Hit("probe:algorithm-rejected-block-constructed")
+			stream = append(stream, front...)
+			rejected++
+		}
+	}
+	if cs.prepare != nil {
+		// the first in-range block of the scripted stream (or the fallback block below) is the one to be discarded
+		var first *big.Int
+		for _, k := range kinds {
+			v := new(big.Int).SetBytes(c12Block(k, cs.order, rnd))
+			if v.Sign() > 0 && v.Cmp(hiAll) <= 0 {
+				first = v
+				break
+			}
+		}
+		if first != nil {
+			cs.prepare(first)
+			c.Hit("probe:algorithm-rejected-block-constructed")
+		}
+	}
 	for _, k := range kinds {
 		b := c12Block(k, cs.order, rnd)
 		v := new(big.Int).SetBytes(b)
@@ -206,6 +236,12 @@ func execC12(t *testing.T, p *sim.Program, c *sim.Ctx) {
 		}
 		stream = append(stream, b...)
 		expect = v
+		if cs.reject != nil && cs.reject(v) {
+			// the fallback block meets the algorithm's own discard condition as well (identical blocks in a minimised
+			// program, or the 1-in-256 coincidence): what follows is drawn from the filler pattern; not judged
+			c.Hit("probe:fallback-block-discarded-not-judged")
+			return
+		}
 	}
 	if rejected > 0 {
 		c.Hit("probe:rejection-sampling-looped")
@@ -316,7 +352,7 @@ func c12Build(opn string, seed, msg []byte) (*c12Case, error) {
 				}
 				return ""
 			}}, nil
-	case "sm2.sign", "sm2.encrypt", "sm2.kxinit", "sm2.kxrespond":
+	case "sm2.sign", "sm2.signretry", "sm2.encrypt", "sm2.kxinit", "sm2.kxrespond":
 		priv, err := sm2.NewPrivateKey(scalarFrom(seed, "d"))
 		if err != nil {
 			return nil, err
@@ -350,6 +386,53 @@ func c12Build(opn string, seed, msg []byte) (*c12Case, error) {
 					}
 					return ""
 				}}, nil
+		case "sm2.signretry":
+			// the digest is chosen for the first in-range block k0 so that step A5 must discard it: r = 0 (e = -x1) or
+			// r + k = n (e = -k0 - x1); the signature must then be made with the NEXT acceptable block
+			var dg []byte
+			cs := &c12Case{name: opn, order: n, hiOff: 1, usesPre: true}
+			cs.prepare = func(first *big.Int) {
+				k0 := new(big.Int).Set(first)
+				x1 := sm2m.ScalarBaseMult(k0).X
+				e := new(big.Int).Neg(x1)
+				if seed[0]&1 == 1 {
+					e.Sub(e, k0)
+				}
+				e.Mod(e, n)
+				dg = e.FillBytes(make([]byte, 32))
+			}
+			// step A5 for the chosen digest, for ANY block (k and n-k share their abscissa, so the r = 0 digest of one
+			// discards the other as well): r = (e + x([k]G)) mod n; discard if r = 0 or r + k = n
+			cs.reject = func(k *big.Int) bool {
+				if dg == nil {
+					return false
+				}
+				r := new(big.Int).Add(new(big.Int).SetBytes(dg), sm2m.ScalarBaseMult(k).X)
+				r.Mod(r, n)
+				return r.Sign() == 0 || new(big.Int).Add(r, k).Cmp(n) == 0
+			}
+			cs.run = func(rd io.Reader) ([][]byte, error) {
+				if dg == nil {
+					h := sm3m.Sum(msg)
+					dg = h[:]
+				}
+				sig, err := priv.Sign(rd, dg, nil)
+				return [][]byte{sig}, err
+			}
+			cs.check = func(k *big.Int, outs [][]byte) string {
+				r, s, ok := sm2m.ParseStrictDERSig(outs[0])
+				if !ok {
+					return "signature is not strict DER"
+				}
+				if got := sm2m.RecoverK(d, r, s); got.Cmp(k) != 0 {
+					return fmt.Sprintf("nonce recovered from the signature %x, expected block %x (the first block meets a retry condition of step A5 and must be replaced)", got, k)
+				}
+				if !sm2m.VerifyRS(pub, dg, r, s) {
+					return "signature does not verify in the model"
+				}
+				return ""
+			}
+			return cs, nil
 		case "sm2.encrypt":
 			return &c12Case{name: opn, order: n, hiOff: 1,
 				// GB/T 32918.4 step A5: if the mask t is all zero the algorithm returns to A1 and draws a new k
@@ -599,7 +682,7 @@ func c12Build(opn string, seed, msg []byte) (*c12Case, error) {
 				}
 				return ""
 			}}, nil
-	case "sm9.wrap", "sm9.encrypt", "sm9.kxinit", "sm9.kxrespond":
+	case "sm9.wrap", "sm9.wrapretry", "sm9.encrypt", "sm9.kxinit", "sm9.kxrespond":
 		master, err := sm9.GenerateEncryptMasterKey(&sim.ScriptReader{Data: scalarFrom(seed, "ke")})
 		if err != nil {
 			return nil, err
@@ -654,6 +737,58 @@ func c12Build(opn string, seed, msg []byte) (*c12Case, error) {
 					}
 					return ""
 				}}, nil
+		case "sm9.wrapretry":
+			// a one-byte key: 1 scalar in 256 derives the all-zero key, which GM/T 0044 step A5 discards. WHICH block is
+			// discarded is observed from the library (a stream of that block alone makes it read on); that the result is
+			// then made with the NEXT block, and only with it, is checked independently (pairing equation, unwrap)
+			var found *big.Int
+			cs := &c12Case{name: opn, order: c12SM9Order, hiOff: 1}
+			cs.findRejected = func() []byte {
+				for j := 0; j < 1200; j++ {
+					cand := scalarFrom(append([]byte{byte(j), byte(j >> 8)}, seed...), "c12 wrapretry")
+					pr := &sim.ScriptReader{Data: cand, Fill: 13, Step: 5}
+					if _, _, err := sm9.WrapKey(pr, master.PublicKey(), uid, 3, 1); err != nil {
+						return nil
+					} else if pr.Off > 32 {
+						found = new(big.Int).SetBytes(cand)
+						return cand
+					}
+				}
+				return nil
+			}
+			// any other block may meet the same condition (1 in 256): every candidate is probed the same way
+			probed := map[string]bool{}
+			cs.reject = func(k *big.Int) bool {
+				if found != nil && k.Cmp(found) == 0 {
+					return true
+				}
+				kb := k.FillBytes(make([]byte, 32))
+				if v, ok := probed[string(kb)]; ok {
+					return v
+				}
+				pr := &sim.ScriptReader{Data: kb, Fill: 13, Step: 5}
+				_, _, err := sm9.WrapKey(pr, master.PublicKey(), uid, 3, 1)
+				probed[string(kb)] = err == nil && pr.Off > 32
+				return probed[string(kb)]
+			}
+			cs.run = func(rd io.Reader) ([][]byte, error) {
+				key, ct, err := sm9.WrapKey(rd, master.PublicKey(), uid, 3, 1)
+				if err != nil {
+					return [][]byte{key, ct}, err
+				}
+				return [][]byte{ct, key}, nil
+			}
+			cs.check = func(k *big.Int, outs [][]byte) string {
+				if d := checkC(k, outs[0]); d != "" {
+					return d
+				}
+				key, err := sm9.UnwrapKey(user, uid, outs[0], 1)
+				if err != nil || !bytes.Equal(key, outs[1]) {
+					return "unwrap does not return the wrapped key"
+				}
+				return ""
+			}
+			return cs, nil
 		case "sm9.encrypt":
 			return &c12Case{name: opn, order: c12SM9Order, hiOff: 1,
 				run: func(rd io.Reader) ([][]byte, error) {
